@@ -174,6 +174,14 @@ theorem round_robin_finishes (cfg : Cfg) (sched : List Nat) :
   finish_allFin _ (invA_reach cfg sched)
     (Nat.le_succ_of_le (measure_exec_le cfg sched (init cfg)))
 
+/-- **C12.5b** the completion phase of a WAKER-RESPECTING executor (rounds that poll only the tasks
+    whose waker fired, `measure (init cfg) + 1` of them, started after any schedule) ends with every
+    task finished: `join_all`, tokio or any executor that polls only woken tasks completes. -/
+theorem waker_rounds_finish (cfg : Cfg) (sched : List Nat) :
+    allFin cfg (finishW cfg (measure cfg (init cfg) + 1) (exec cfg sched (init cfg))) = true :=
+  finishW_allFin _ (invA_reach cfg sched) (invW_reach cfg sched)
+    (Nat.le_succ_of_le (measure_exec_le cfg sched (init cfg)))
+
 /-- the number of rounds needed is bounded by the initial measure, a function of the
     configuration only: `Σ_tasks (1 + Σ_lookups (suspensions + 3))`. -/
 theorem measure_bounded (cfg : Cfg) (sched : List Nat) :
@@ -305,6 +313,12 @@ theorem g_round_robin_finishes (cfg : ICfg) (sched : List Nat) :
     gallFin cfg (gfinish cfg (gfuel cfg) (gexec cfg sched (ginit cfg))) = true := by
   rw [sim_allFin, (sim_gfinish cfg _ (g_doneOk cfg sched)).1, g_simulation]
   exact round_robin_finishes (compile cfg) sched
+
+/-- the same for the completion phase of a waker-respecting executor -/
+theorem g_waker_rounds_finish (cfg : ICfg) (sched : List Nat) :
+    gallFin cfg (gfinishW cfg (gfuel cfg) (gexec cfg sched (ginit cfg))) = true := by
+  rw [sim_allFin, sim_gfinishW cfg _ (g_doneOk cfg sched), g_simulation]
+  exact waker_rounds_finish (compile cfg) sched
 
 theorem gexec_append (cfg : ICfg) (a b : List Nat) (s : GState) :
     gexec cfg (a ++ b) s = gexec cfg b (gexec cfg a s) := by
@@ -752,6 +766,10 @@ example :
 theorem requests_finish (rc : RCfg) (sched : List Nat) :
     gallFin (toICfg rc) (gfinish (toICfg rc) (gfuel (toICfg rc)) (rexec rc sched)) = true :=
   g_round_robin_finishes (toICfg rc) sched
+
+theorem requests_finish_waker_respecting (rc : RCfg) (sched : List Nat) :
+    gallFin (toICfg rc) (gfinishW (toICfg rc) (gfuel (toICfg rc)) (rexec rc sched)) = true :=
+  g_waker_rounds_finish (toICfg rc) sched
 
 theorem requests_no_lost_wakeup (rc : RCfg) (sched : List Nat)
     (hnf : gallFin (toICfg rc) (rexec rc sched) = false) :
